@@ -109,6 +109,13 @@ type c12Case struct {
 	// exactly one; net/http's Header.Get - and so every Go handler - reads the
 	// first, and that is the line the verdict is about.
 	More []string
+	// NilOpts: Accept is called with nil options (only drawn without patterns and without InsecureSkipVerify)
+	NilOpts bool
+}
+
+// badPattern: syntactically invalid for path.Match; such a pattern authorises nobody.
+func badPattern(p string) bool {
+	return strings.Contains(p, "[") || strings.HasSuffix(p, "\\")
 }
 
 func swapCase(s string) string {
@@ -133,9 +140,10 @@ func genC12(rt *rapid.T) c12Case {
 	evil := rapid.SampledFrom([]string{"evil.com", "evil.example.net", "attacker.io:8080", "10.0.0.1"}).Draw(rt, "evil")
 	// pattern sets
 	for i := rapid.IntRange(0, 3).Draw(rt, "nPatterns"); i > 0; i-- {
-		c.Patterns = append(c.Patterns, rapid.SampledFrom([]string{"*.example.com", "example.com", "trusted.org", "*.trusted.org", "TRUSTED.org", "app-?.trusted.org", "*", "localhost:*", "*:8080", "evil.com"}).Draw(rt, "pattern"))
+		c.Patterns = append(c.Patterns, rapid.SampledFrom([]string{"*.example.com", "example.com", "trusted.org", "*.trusted.org", "TRUSTED.org", "app-?.trusted.org", "*", "localhost:*", "*:8080", "evil.com", "*.example.com", "trusted.org", "[", "[a-", "cdn[0-9.example.com", "trusted.org\\"}).Draw(rt, "pattern"))
 	}
 	c.Insecure = rapid.IntRange(0, 9).Draw(rt, "insecure") == 0
+	nilOpts := rapid.Bool().Draw(rt, "nilOptions")
 	c.Family = rapid.SampledFrom([]string{"absent", "same-host", "same-host-case", "pattern-authorised", "other-host", "userinfo-host-at-evil", "userinfo-evil-at-host", "port-mismatch", "suffix-lookalike", "prefix-lookalike", "subdomain-lookalike", "host-in-path", "host-in-query", "host-in-fragment", "null", "schemeless", "opaque", "whitespace", "garbage", "trailing-dot", "double-at", "backslash", "empty-authority", "long-lookalike", "long-authorised", "multi-origin"}).Draw(rt, "family")
 	switch c.Family {
 	case "absent":
@@ -222,6 +230,7 @@ func genC12(rt *rapid.T) c12Case {
 			c.Origin, c.More = bad, []string{good, good}
 		}
 	}
+	c.NilOpts = nilOpts && len(c.Patterns) == 0 && !c.Insecure
 	return c
 }
 
@@ -234,7 +243,11 @@ func runC12(c c12Case) (status int, hijacked bool, err error) {
 	for _, o := range c.More {
 		r.Header.Add("Origin", o)
 	}
-	sv, aerr := wsx.AcceptReq(r, &websocket.AcceptOptions{OriginPatterns: c.Patterns, InsecureSkipVerify: c.Insecure}, nil)
+	opts := &websocket.AcceptOptions{OriginPatterns: c.Patterns, InsecureSkipVerify: c.Insecure}
+	if c.NilOpts {
+		opts = nil // the defaults: what an earlier handshake was allowed must not matter
+	}
+	sv, aerr := wsx.AcceptReq(r, opts, nil)
 	if sv.Conn != nil {
 		sv.Conn.CloseNow()
 	}
@@ -259,17 +272,21 @@ func checkC12(c c12Case, status int, hijacked bool) string {
 			authorised = true
 		}
 		for _, p := range c.Patterns {
-			if glob(p, auth) {
+			if !badPattern(p) && glob(p, auth) {
 				authorised = true
 			}
 		}
 	} else {
 		// no host can be named: only a pattern that matches the empty host authorises it
 		for _, p := range c.Patterns {
-			if glob(p, "") {
+			if !badPattern(p) && glob(p, "") {
 				authorised = true
 			}
 		}
+	}
+	anyBad := false
+	for _, p := range c.Patterns {
+		anyBad = anyBad || badPattern(p)
 	}
 	if upgraded && !authorised {
 		return fmt.Sprintf("cross-origin request was upgraded: Origin %q names authority %q (extractable=%v), Host %q, patterns %v", c.Origin, auth, ok, c.Host, c.Patterns)
@@ -279,7 +296,7 @@ func checkC12(c c12Case, status int, hijacked bool) string {
 			return fmt.Sprintf("origin refusal used status %d, want 403", status)
 		}
 		// acceptance is only demanded for origins the generator built as proper serialisations
-		if c.Built && authorised {
+		if c.Built && authorised && !anyBad { // (a malformed pattern in the list may make the library refuse everyone behind it)
 			return fmt.Sprintf("an authorised origin was refused: Origin %q, Host %q, patterns %v", c.Origin, c.Host, c.Patterns)
 		}
 	}
@@ -288,7 +305,7 @@ func checkC12(c c12Case, status int, hijacked bool) string {
 
 func TestC12(t *testing.T) {
 	rec := evid.For("C12")
-	rec.Rule = "rapid draws (Host, Origin, OriginPatterns, InsecureSkipVerify) from an origin attack grammar: 12 host forms (names, IPv4, bracketed IPv6, ports, mixed case) x 26 origin families (very long authorised names and look-alikes of 13..600 bytes with one upper-case letter, several Origin lines of which the first is the one a Go handler sees, absent, same host, case variants, pattern-authorised, other host, userinfo tricks both ways, port mismatch, suffix/prefix/sub-domain look-alikes, host inside path/query/fragment, null, schemeless, opaque, whitespace, garbage, trailing dot, double @, backslash, empty authority) x 5 schemes x pattern sets with literals, * and ?. Oracle: independent authority extractor + glob matcher; one-sided security predicate (upgraded => authorised) plus the converse for origins the generator built as RFC 6454 serialisations. Non-trivial: Origin present and textually different from Host. distinct = hash(host, origin, patterns, flag)."
+	rec.Rule = "rapid draws (Host, Origin, OriginPatterns, InsecureSkipVerify) from an origin attack grammar: 12 host forms (names, IPv4, bracketed IPv6, ports, mixed case) x 26 origin families (very long authorised names and look-alikes of 13..600 bytes with one upper-case letter, several Origin lines of which the first is the one a Go handler sees, absent, same host, case variants, pattern-authorised, other host, userinfo tricks both ways, port mismatch, suffix/prefix/sub-domain look-alikes, host inside path/query/fragment, null, schemeless, opaque, whitespace, garbage, trailing dot, double @, backslash, empty authority) x 5 schemes x pattern sets with literals, * and ? and syntactically invalid patterns (which authorise nobody), or nil options after earlier handshakes of the process ran with InsecureSkipVerify. Oracle: independent authority extractor + glob matcher; one-sided security predicate (upgraded => authorised) plus the converse for origins the generator built as RFC 6454 serialisations. Non-trivial: Origin present and textually different from Host. distinct = hash(host, origin, patterns, flag)."
 	rapid.Check(t, func(rt *rapid.T) {
 		c := genC12(rt)
 		status, hijacked, _ := runC12(c)
@@ -298,7 +315,7 @@ func TestC12(t *testing.T) {
 		if status == 101 {
 			out = "upgraded"
 		}
-		rec.Case(nt, fmt.Sprintf("%s|%s|%v|%v|%v", c.Host, c.Origin, c.Patterns, c.Insecure, c.More), "family:"+c.Family, "outcome:"+out, "family-outcome:"+c.Family+"/"+out)
+		rec.Case(nt, fmt.Sprintf("%s|%s|%v|%v|%v|%v", c.Host, c.Origin, c.Patterns, c.Insecure, c.More, c.NilOpts), "family:"+c.Family, "outcome:"+out, "family-outcome:"+c.Family+"/"+out)
 		if rec.WantSample() {
 			rec.Sample(map[string]any{"host": c.Host, "origin": c.Origin, "patterns": c.Patterns, "insecure": c.Insecure, "status": status})
 		}
